@@ -470,9 +470,7 @@ impl Serializable for Instruction {
             }
 
             // ----- debug decorators -------------------------------------------------------------
-            Self::Breakpoint => {
-                // this is a transparent instruction and will not be encoded into the library
-            }
+            Self::Breakpoint => OpCode::Breakpoint.write_into(target),
 
             Self::Debug(options) => {
                 OpCode::Debug.write_into(target);
